@@ -414,6 +414,53 @@ def outer_comment(c0: int, c1: int, c2: int) -> Tuple[str, str]:
     return (path2.strip(), comment.strip())
 
 
+RUNRECS = [["0"], ["1"], ["2"], ["3"]]
+
+
+def _run_with_modes(prefix, orflag, unm, k, j):
+    from vp.kit import StubReader, CsvPath as _CsvPath
+
+    StubReader.RECORDS = RUNRECS
+    with NoTracing():
+        p = _CsvPath(print_default=False)
+    # modes chosen through the public API before parse()
+    p.OR = orflag
+    p.collect_when_not_matched = unm
+    with NoTracing():
+        p.parse(prefix + "$SYM[*][ @k == line_number()  @j == line_number() ]")
+    p.variables["k"] = k
+    p.variables["j"] = j
+    return [int(l[0]) for l in p.collect()]
+
+
+@ob(
+    "C17",
+    "O2-comment-keeps-api-modes",
+    pre=["{LO} <= k <= {HI} and {LO} <= j <= {HI}"],
+    post="_[0] == _[1] and _[0] == modes_oracle(orflag, unm, k, j)",
+    bound="a run of '[ @k == line_number()  @j == line_number() ]' over 4 records with the logic mode (AND/OR) and the return mode chosen "
+    "through the public API before parse() (symbolic bools), k and j symbolic LO..HI: the returned lines are the same with and without an "
+    "outer comment of 1-2 characters over {letter, blank, '$', ':', '.'} (no mode settings; one comment per shard), and equal the fold",
+    outside="comments with mode settings (C15); longer comments",
+    encodes=["csvpath/util/metadata_parser.py:MetadataParser.extract_metadata/collect_metadata", "csvpath/csvpath.py:CsvPath.parse/update_settings_from_metadata/OR/collect_when_not_matched",
+             "csvpath/modes/mode_controller.py"],
+    tiers={"quick": {"timeout": 900, "K": {"LO": -1, "HI": 3}, "shards": product(c0=[0, 1, 2, 3, 4], c1=[-1, 3])}},
+)
+def comment_keeps_api_modes(c0: int, c1: int, orflag: bool, unm: bool, k: int, j: int) -> Tuple[List[int], List[int]]:
+    plain = _run_with_modes("", orflag, unm, k, j)
+    commented = _run_with_modes("~" + cpick(c0) + cpick(c1) + "~ ", orflag, unm, k, j)
+    return (plain, commented)
+
+
+def modes_oracle(orflag, unm, k, j):
+    out = []
+    for i in range(len(RUNRECS)):
+        m = (i == k or i == j) if orflag else (i == k and i == j)
+        if m != unm:
+            out.append(i)
+    return out
+
+
 # ------------------------------------------------------------------ O1c: the tree built by the transformer equals the source
 FUNCS = ["yes", "not", "concat.onmatch", "any"]
 
